@@ -762,3 +762,22 @@ Proof.
   replace (rf_len f) with (wo_end s) by (rewrite P; exact (wi_len _ _ I)).
   eapply e2_chunks_layout; [apply (wi_chain _ _ I E0)|exact O].
 Qed.
+
+(* a TRACK_*_HEAD chunk tracked by the checker: its payload in the file is the table the checker holds *)
+Theorem e2_J_head : forall s q f x, e2_J s q f -> wo_pending s = WoIdle -> In x (wo_exts s) ->
+  fm_is_head_tag (fm_tag (wo_e_hdr x)) = true ->
+  e2_chunk_at f (wo_e_off x) (wo_e_hdr x) (wo_e_table x).
+Proof.
+  intros s q f x J Hidle Hx Eh.
+  pose proof (j_wo _ _ _ J) as I.
+  assert (E0 : wo_len s <> 0) by (intro E; destruct (wi_empty _ _ I E) as [Hex _]; rewrite Hex in Hx; destruct Hx).
+  pose proof (wi_chain _ _ I E0) as Hch. destruct (wo_chunks_bounds _ _ _ Hch) as [He Hbd].
+  destruct (Hbd _ _ (e2_ext_in_pairs _ _ Hx)) as (A & B & C & D).
+  pose proof (j_crc _ _ _ J x Hx) as Hcrc. unfold e2_not_tbl in Hcrc. rewrite Hidle in Hcrc. specialize (Hcrc Logic.I).
+  assert (Hsz : wo_e_off x + fm_chunk_size (fm_payload_length (wo_e_hdr x)) <= rf_len f) by (unfold wo_size, rf_len in *; lia).
+  pose proof (j_tbl _ _ _ J x Hx Eh) as T.
+  assert (Hl : rf_len (wo_e_table x) = fm_payload_length (wo_e_hdr x)).
+  { rewrite <- T. unfold rf_len. rewrite e2_sub_length; [lia|].
+    pose proof (e2_disk_len_ge (fm_payload_length (wo_e_hdr x))). unfold fm_chunk_size, SIZEOF_chunk_header in Hsz. lia. }
+  unfold e2_chunk_at. rewrite Hl. repeat split; assumption.
+Qed.
